@@ -181,8 +181,7 @@ theorem lfixedFreeBlock_live (s : State) (k : Nat) (b : FBlk) : (lfixedFreeBlock
 
 theorem writes_malloc {s : State} (h : Inv s) (req : Nat) (hok : OpOK s.cfg (.malloc req)) :
     AllOutside s.live (malloc s req).writes := by
-  unfold OpOK at hok
-  have hpos := effSize_pos s.cfg req hok.2
+  have hpos := effSize_pos s.cfg req
   unfold malloc
   simp only
   split
